@@ -286,8 +286,27 @@ fn run_jobs(rep: &mut Report, jobs: &[SweepJob], tier: &str, seed: u64, prefix: 
     }
     rep.count_n(&format!("{prefix}:jobs"), jobs.len() as u64);
     rep.count_n(&format!("{prefix}:distinct-compiled-casts"), groups.len() as u64);
-    for (_, members) in groups {
+    for (gi, (_, members)) in groups.into_iter().enumerate() {
         let job = members[0];
+        if rep.samples.len() < rep.max_samples && (gi % 5 == 2 || prefix != "cast-table") && !job.fwd.steps.is_empty() {
+            let mut rng = Rng::new(seed ^ hash64(job.label.as_bytes()));
+            let pats: Vec<serde_json::Value> = [0x7fc0_0001u64, 0xffff_ffff_8000_0001, rng.next()]
+                .iter()
+                .map(|b| {
+                    let bits = if is64(job.have) { *b } else { *b & 0xffff_ffff };
+                    let slot = job.fwd.run(job.have, bits);
+                    let back = match (&slot, &job.back) {
+                        (Ok((t, o)), Some(bk)) => Some(bk.run(*t, *o)),
+                        _ => None,
+                    };
+                    let exp = oracle(job.dir, CoreVal::from_bits(job.have, bits), job.want);
+                    json!({"source": format!("{:?} {bits:#x}", job.have), "machine": slot.map(|(t, o)| format!("{t:?} {o:#x}")).unwrap_or_else(|e| format!("type error {e:?}")),
+                           "spec": format!("{:?} {:#x}", exp.ty(), exp.bits()), "round_trip": back.map(|r| r.map(|(t, o)| format!("{t:?} {o:#x}")).unwrap_or_else(|e| format!("type error {e:?}")))})
+                })
+                .collect();
+            rep.sample(json!({"kind": prefix, "casts": members.iter().map(|m| m.label.clone()).collect::<Vec<_>>(), "direction": format!("{:?}", job.dir),
+                              "primitive_steps": format!("{:?}", job.fwd.steps), "patterns": pats, "origin": job.replay}));
+        }
         let results = parallel(nt, |p| sweep(job, tier, p, nt, seed));
         let mut total = 0;
         let mut failure = None;
@@ -428,6 +447,7 @@ fn shapes_check(rep: &mut Report, units: &[Unit], tier: &str, seed: u64, only: O
     type JobKey = (String, u8, usize, String, String);
     let parts = parallel(nt, |wi| {
         let mut r = Report::new("");
+        r.max_samples = 1;
         let mut distinct_jobs: BTreeMap<JobKey, SweepJob> = BTreeMap::new();
         let mut pairs: BTreeSet<String> = BTreeSet::new();
         for (k, (ui, path, ty)) in work.iter().enumerate() {
@@ -468,6 +488,11 @@ fn shapes_check(rep: &mut Report, units: &[Unit], tier: &str, seed: u64, only: O
                     let n = abi4.flatten(pty).len();
                     let lc = arm_casts(&lower_node.blocks[ci], n);
                     let fc = arm_casts(&lift_node.blocks[ci], n);
+                    if r.samples.is_empty() && lc.iter().any(|c| *c != Cast::None) {
+                        r.sample(json!({"kind": "variant-shape", "unit": unit.label, "path": path, "type": shorten(&abi4.shape_key(ty), 200), "case": ci,
+                                        "payload_flat_w4": format!("{:?}", abi4.flatten(pty)), "joined_flat_w4": format!("{:?}", &abi4.flatten(ty)[1..]),
+                                        "lower_casts": format!("{lc:?}"), "lift_casts": format!("{fc:?}")}));
+                    }
                     if lc.len() != n || fc.len() != n {
                         r.violation("variant-shape:cast-count", &format!("case {ci}: {} lower casts / {} lift casts for {n} payload slots [type {}]", lc.len(), fc.len(), shorten(&abi4.shape_key(ty), 200)), wit.clone());
                         continue;
@@ -606,7 +631,7 @@ fn main() {
     let tier = args.str("tier", "quick");
     let seed = args.seed();
     let mut rep = Report::new("evaluation = one (cast, source bit pattern) execution or one (variant shape, case, slot, width) check; distinct = cast pairs x widths, emitted cast trees, variant shapes");
-    rep.max_samples = 4;
+    rep.max_samples = 6;
     rep.assume("spec coercions = cabi_ref::Abi::coerce_into_slot / coerce_from_slot (f32->i32 and f64->i64 reinterpret, i32->i64 zero-extends, i64->i32 wraps); Pointer/Length are i32 at width 4 and i64 at width 8, PointerOrI64 is i64");
     rep.assume("64-bit source domains are sampled (structured quarters + random), 32-bit source domains are exhaustive only in the thorough tier");
     let mut only = None;
